@@ -650,7 +650,19 @@ func (w *watch) update(dirErrors map[string]error, removed ...string) bool {
 			continue
 		}
 
+		// The directory might get replaced (removed or renamed away, and
+		// created again) while we set up the watch. We could then end up
+		// watching the one which is gone, without ever getting an event
+		// for it. Make sure the same directory is there before and after.
+		before, _ := os.Stat(dir)
 		err = w.watcher.Add(dir)
+		if err == nil {
+			after, statErr := os.Stat(dir)
+			if before == nil || statErr != nil || !os.SameFile(before, after) {
+				_ = w.watcher.Remove(dir)
+				err = errors.New("directory changed while setting up watch")
+			}
+		}
 		if err == nil {
 			w.tracked[dir] = true
 			delete(dirErrors, dir)
